@@ -196,7 +196,7 @@ package messages
 //@   modifies w.buf
 //@   ensures result == w
 //@   ensures old(w.err) != nil ==> w.buf == old(w.buf)
-//@   ensures old(w.err) == nil ==> len(w.buf) == old(len(w.buf)) + 1 && (w.buf[old(len(w.buf))] != 0) == v && kept(w, old(len(w.buf)))
+//@   ensures old(w.err) == nil ==> len(w.buf) == old(len(w.buf)) + 1 && w.buf[old(len(w.buf))] == (v ? 1 : 0) && kept(w, old(len(w.buf)))
 
 //@ pure w16at(w *Writer, p mathint) mathint = bo16(w.order, w.buf[p], w.buf[p + 1])
 //@ pure w32at(w *Writer, p mathint) mathint = bo32(w.order, w.buf[p], w.buf[p + 1], w.buf[p + 2], w.buf[p + 3])
